@@ -58,9 +58,15 @@ fn benign_line(rng: &mut Rng, next: &SentHdr, prev: Option<&SentHdr>, pcfg: &Pay
                 None => Some(rng.below(10) as u8),
             };
             let other = if other == next.id { Some(next.id.unwrap_or(0).wrapping_add(1)) } else { other };
-            let k = rng.range(2, 9) as u8;
+            // sometimes with the very number the open group expects next, sometimes over-long
+            let k = if rng.ratio(1, 3) { next.k.max(2) } else { rng.range(2, 9) as u8 };
             let n = k.max(rng.range(2, 9) as u8);
-            (make_line(&addr, n, k, other, b"A", b"w7b", 0), rng.ratio(1, 2), vec![Fault::RewriteHeader])
+            let payload: Vec<u8> = if rng.ratio(1, 4) {
+                (0..rng.range(385, 450)).map(|_| armor_char(rng.below(64) as u8)).collect()
+            } else {
+                b"w7b".to_vec()
+            };
+            (make_line(&addr, n, k, other, b"A", &payload, 0), rng.ratio(1, 2), vec![Fault::RewriteHeader])
         }
         _ => {
             // same id, but not the next number: a duplicate of the previous fragment, or a skip
@@ -72,7 +78,12 @@ fn benign_line(rng: &mut Rng, next: &SentHdr, prev: Option<&SentHdr>, pcfg: &Pay
                         (noise_line(rng), false, vec![Fault::Noise])
                     } else {
                         let n = next.n.max(k);
-                        (make_line(&addr, n, k, next.id, b"A", b"w7b", 0), rng.ratio(1, 2), vec![Fault::Dup])
+                        let payload: Vec<u8> = if rng.ratio(1, 4) {
+                            (0..rng.range(385, 450)).map(|_| armor_char(rng.below(64) as u8)).collect()
+                        } else {
+                            b"w7b".to_vec()
+                        };
+                        (make_line(&addr, n, k, next.id, b"A", &payload, 0), rng.ratio(1, 2), vec![Fault::Dup])
                     }
                 }
                 None => (noise_line(rng), false, vec![Fault::Noise]),
